@@ -132,7 +132,7 @@ class Prop(Check):
         "BaseTypes.C04_strInt_kind",
     ]
     DRIVER = "Drivers/Re.lean"
-    PROCS_THOROUGH = 4
+    PROCS_THOROUGH = 3
     QUICK_CASES = 600
     THOROUGH_CASES = 30000
     RULE = ("tokens cases: a text of 1..4 literals of one base type (strings over {a,space,\",',\\,newline} exhaustively "
